@@ -3,15 +3,21 @@
     A case is one generated world (configuration, owner objects, sibling pods)
     plus several runs of the REAL reconciler over it, each from a fresh API
     store: a list of events (reconcile pod i / foreign update of a PodGroup,
-    labels and annotations of other actors included / an owner object loses
-    label or annotation keys) with, per event, the number of mutating API calls, the error flag, the
-    pod's pod-group annotation, and the touched PodGroup before and after; and
-    the final store. *)
+    labels and annotations of other actors included / an owner object is edited:
+    label and annotation keys removed, added, changed / a PodGroup is overwritten,
+    grouper-owned fields included / a PodGroup is deleted) with, per event, the number of
+    mutating API calls, the error flag, the pod's pod-group annotation, and the touched
+    PodGroup before and after; and the final store. A run with such events comes with a
+    FRESH run: the reconciles that follow its last other event, executed by the real
+    reconciler on a second, new store that holds the final owner objects and the pods as
+    they were created. *)
 From KaiV Require Export Run.Prelude Model.Grouper Model.GrouperSpec.
 Open Scope Z_scope.
 
-(** [OwnE j o]: the [j]-th owner object of the cluster is replaced by [o] (the harness only removes keys) *)
-Inductive ev := RecE (i : nat) | ForE (name : string) (f : foreign_upd) | OwnE (j : nat) (o : obj).
+(** [OwnE j o]: the [j]-th owner object of the cluster is replaced by [o] (keys removed, added, changed);
+    [TamE n g]: PodGroup [n] is overwritten, [g] is what the store holds afterwards; [DelE n]: it is deleted *)
+Inductive ev := RecE (i : nat) | ForE (name : string) (f : foreign_upd) | OwnE (j : nat) (o : obj)
+              | TamE (name : string) (g : pg) | DelE (name : string).
 
 Record ev_obs := {
   eo_writes : Z;                 (* Create + Update + Patch (+ any other mutating call) *)
@@ -21,10 +27,18 @@ Record ev_obs := {
   eo_after : option pg           (* ... and after it *)
 }.
 
+(** the fresh run: the trailing reconciles of the run on a new store holding the final owner objects *)
+Record freshrec := {
+  fr_events : list (ev * ev_obs);
+  fr_final : list (string * pg);
+  fr_final_ann : list (option string)
+}.
+
 Record runrec := {
   r_events : list (ev * ev_obs);
   r_final : list (string * pg);          (* the store at the end, sorted by name *)
-  r_final_ann : list (option string)     (* pod-group annotation of every pod at the end *)
+  r_final_ann : list (option string);    (* pod-group annotation of every pod at the end *)
+  r_fresh : option freshrec
 }.
 
 Inductive check_kind := CkGroup | CkIdem.
@@ -92,16 +106,35 @@ Definition agree_event (k : case) (sc : state * list obj) (e : ev * ev_obs) : (s
     ((fst r, cl), Z.eqb (eo_writes o) 0 && opg_ext_eqb (get_pg n s) (eo_before o)
             && opg_ext_eqb (get_pg n (fst r)) (eo_after o))
   | OwnE j ob => ((s, replace_nth j ob cl), Z.eqb (eo_writes o) 0)
+  | TamE n g =>
+    let s' := snd (hstep (k_cfg k) (HTamper n g) (cl, s)) in
+    ((s', cl), Z.eqb (eo_writes o) 0 && opg_ext_eqb (get_pg n s) (eo_before o) && opg_ext_eqb (Some g) (eo_after o))
+  | DelE n =>
+    let s' := snd (hstep (k_cfg k) (HDelete n) (cl, s)) in
+    ((s', cl), Z.eqb (eo_writes o) 0 && opg_ext_eqb (get_pg n s) (eo_before o) && opg_ext_eqb None (eo_after o))
   end.
 
-Definition agree_run (k : case) (r : runrec) : bool :=
+(** the model replays the events from the empty store under the owner objects [cl0] *)
+Definition agree_obs (k : case) (cl0 : list obj) (events : list (ev * ev_obs)) (final : list (string * pg))
+           (final_ann : list (option string)) : bool :=
   let res := fold_left (fun acc e => let x := agree_event k (fst acc) e in (fst x, snd acc && snd x))
-                       (r_events r) ((empty_state, k_cluster k), true) in
+                       events ((empty_state, cl0), true) in
   let s := fst (fst res) in
   snd res
-  && Nat.eqb (List.length (st_pgs s)) (List.length (r_final r))
-  && forallb (fun ng => opg_ext_eqb (get_pg (fst ng) s) (Some (snd ng))) (r_final r)
-  && list_eqb ostr_eqb (map (fun p => eff_ann p s) (k_pods k)) (r_final_ann r).
+  && Nat.eqb (List.length (st_pgs s)) (List.length final)
+  && forallb (fun ng => opg_ext_eqb (get_pg (fst ng) s) (Some (snd ng))) final
+  && list_eqb ostr_eqb (map (fun p => eff_ann p s) (k_pods k)) final_ann.
+
+(** the owner objects at the end of a run *)
+Definition final_cluster (k : case) (r : runrec) : list obj :=
+  fold_left (fun cl e => match fst e with OwnE j o => replace_nth j o cl | _ => cl end) (r_events r) (k_cluster k).
+
+Definition agree_run (k : case) (r : runrec) : bool :=
+  agree_obs k (k_cluster k) (r_events r) (r_final r) (r_final_ann r)
+  && match r_fresh r with
+     | None => true
+     | Some f => agree_obs k (final_cluster k r) (fr_events f) (fr_final f) (fr_final_ann f)
+     end.
 
 Definition model_agrees (k : case) : bool := forallb (agree_run k) (k_runs k).
 
@@ -171,13 +204,15 @@ Definition order_ok (k : case) : bool :=
                                    && list_eqb ostr_eqb (r_final_ann r0) (r_final_ann r)) rs
   end.
 
-(** keys of other actors: a label / annotation key that no object of the world carries (the initial cluster -
-    the harness only removes owner keys afterwards - and the pods) and that is none of the keys the grouper
-    writes by itself; the grouper copies labels and annotations, it does not invent keys *)
+(** keys of other actors: a label / annotation key that no object of the world carries (the initial cluster, the
+    edited owner objects of every run, the pods) and that is none of the keys the grouper writes by itself; the
+    grouper copies labels and annotations, it does not invent keys *)
 Definition keys_of (m : smap) : list string := map fst m.
+Definition obj_keys (o : obj) : list string := (keys_of (o_labels o) ++ keys_of (o_annots o))%list.
 Definition world_keys (k : case) : list string :=
   ([c_queue_key (k_cfg k); c_nodepool_key (k_cfg k); tom_key; user_key; pg_annotation_key; subgroup_label_key]
-   ++ flat_map (fun o => keys_of (o_labels o) ++ keys_of (o_annots o)) (k_cluster k)
+   ++ flat_map obj_keys (k_cluster k)
+   ++ flat_map (fun r => flat_map (fun e => match fst e with OwnE _ o => obj_keys o | _ => [] end) (r_events r)) (k_runs k)
    ++ flat_map (fun p => keys_of (p_labels p) ++ keys_of (p_annots p)) (k_pods k))%list.
 Definition foreign_key (wk : list string) (x : string) : bool := negb (existsb (String.eqb x) wk).
 
@@ -193,8 +228,8 @@ Definition quiet_foreign (wk : list string) (f : foreign_upd) : bool :=
     happened but reconciles of its siblings and updates of label / annotation keys of other actors on the
     PodGroup (the scheduler's timestamps, an administrator's keys) - nothing the grouper computes changed
     (C18_idempotent, C18_idempotent_interleaved, C18_idempotent_with_foreign_keys). Any other foreign update
-    and any change of an owner object start afresh: the reconcile after it may write, the one after that may
-    not. For every pod: pods with a stale sub-group label and pods that are their own grouping object are
+    any change of an owner object, an overwritten and a deleted PodGroup start afresh: the reconcile after it may
+    write, the one after that may not. For every pod: pods with a stale sub-group label and pods that are their own grouping object are
     regression inputs of 3f1c7d2 / 8227120. *)
 Definition idem_run_ok (k : case) (r : runrec) : bool :=
   let wk := world_keys k in
@@ -203,7 +238,7 @@ Definition idem_run_ok (k : case) (r : runrec) : bool :=
                     | RecE i => (i :: fst acc,
                                  snd acc && (negb (existsb (Nat.eqb i) (fst acc)) || Z.eqb (eo_writes (snd e)) 0))
                     | ForE _ f => if quiet_foreign wk f then acc else ([], snd acc)
-                    | OwnE _ _ => ([], snd acc)
+                    | OwnE _ _ | TamE _ _ | DelE _ => ([], snd acc)
                     end) (r_events r) ([], true)).
 
 (** (4) foreign fields: a reconcile leaves queue, mark-unschedulable, scheduling backoff and the
@@ -233,11 +268,74 @@ Definition foreign_ok (k : case) (r : runrec) : bool :=
                     | _, _ => true
                     end) (r_events r).
 
+(** (5) history independence (C18_history_independent, C18_podgroup_restored): whatever happened before - owner
+    objects edited, the PodGroup overwritten or deleted, foreign updates -, once the trailing reconciles of the
+    run are done every PodGroup of the FRESH run (the same reconciles by the real reconciler on a new store
+    holding the final owner objects) exists in the run's store and agrees with it on the grouper-owned part
+    ([owned_agreeb] = [owned_agree], C18_owned_agreeb_spec: minMember, priority class, preemptibility,
+    sub-groups, topology, owner references; every label of the fresh PodGroup but the queue and node-pool
+    labels; every annotation of it - the fields of other actors excepted exactly as in (4)), and every pod
+    assigned in the fresh run is assigned to the same PodGroup. Pods without owner reference are outside the
+    clause (the code skips them once they carry a pod-group annotation, C18_ownerless_pod_frozen): their
+    PodGroups are counted by observation flag 100 instead. *)
+Fixpoint trailing_recs (evs : list (ev * ev_obs)) (acc : list nat) : list nat :=
+  match evs with
+  | [] => acc
+  | e :: r => match fst e with
+              | RecE i => trailing_recs r (acc ++ [i])
+              | _ => trailing_recs r []
+              end
+  end.
+Definition ownerless (k : case) (i : nat) : bool :=
+  match nth_error (k_pods k) i with
+  | Some p => match p_owners p with [] => true | _ => false end
+  | None => true
+  end.
+(** the PodGroups of the fresh run that belong to pods without owner reference *)
+Definition ownerless_groups (k : case) (f : freshrec) : list string :=
+  flat_map (fun i => if ownerless k i
+                     then match nth_error (fr_final_ann f) i with Some (Some n) => [n] | _ => [] end
+                     else []) (seq 0 (List.length (k_pods k))).
+Definition group_restored (k : case) (r : runrec) (ng : string * pg) : bool :=
+  match lookup (fst ng) (r_final r) with
+  | Some gh => owned_agreeb (k_cfg k) (snd ng) gh
+  | None => false
+  end.
+Definition history_ok (k : case) (r : runrec) : bool :=
+  match r_fresh r with
+  | None => true
+  | Some f =>
+    let skip := ownerless_groups k f in
+    (* the fresh run is the run's trailing reconciles *)
+    list_eqb Nat.eqb (trailing_recs (r_events r) []) (trailing_recs (fr_events f) [])
+    && forallb is_rec (fr_events f)
+    && forallb (fun ng => existsb (String.eqb (fst ng)) skip || group_restored k r ng) (fr_final f)
+    && forallb (fun i => ownerless k i
+                         || match nth_error (fr_final_ann f) i with
+                            | Some (Some n) => ostr_eqb (nth i (r_final_ann r) None) (Some n)
+                            | _ => true
+                            end) (seq 0 (List.length (k_pods k)))
+  end.
+
 Definition monitor_ok (k : case) : bool :=
   match k_check k with
-  | CkIdem => forallb (idem_run_ok k) (k_runs k) && forallb (foreign_ok k) (k_runs k)
+  | CkIdem => forallb (idem_run_ok k) (k_runs k) && forallb (foreign_ok k) (k_runs k) && forallb (history_ok k) (k_runs k)
   | CkGroup => forallb (siblings_ok k) (k_runs k) && order_ok k && forallb (foreign_ok k) (k_runs k)
+               && forallb (history_ok k) (k_runs k)
   end.
+
+(** observation flag 100: a PodGroup of a pod WITHOUT owner reference was not restored after it was overwritten
+    or deleted - the behaviour of C18_ownerless_pod_frozen,
+    outside clause (5); counted in the evidence, never an alarm *)
+Definition case_flags (k : case) : list nat :=
+  if existsb (fun r => match r_fresh r with
+                       | None => false
+                       | Some f => existsb (fun ng => existsb (String.eqb (fst ng)) (ownerless_groups k f)
+                                                      && negb (group_restored k r ng)) (fr_final f)
+                       end) (k_runs k)
+  then [100%nat] else [].
+Definition run_flags (cs : list (nat * case)) : list (nat * list nat) :=
+  filter (fun p => negb (Nat.eqb (List.length (snd p)) 0)) (map (fun c => (fst c, case_flags (snd c))) cs).
 
 Definition run_mismatches (cs : list (nat * case)) : list nat := failing (fun k => negb (model_agrees k)) cs.
 Definition run_monitor (cs : list (nat * case)) : list nat := failing (fun k => negb (monitor_ok k)) cs.
